@@ -210,3 +210,58 @@ def c17_5(ctx):
         ctx.fail(g, g.node, 'is_bi is no longer "a DataFrame with the stamp column"')
     if _stamp(ctx) != 'updated':
         ctx.fail(g, g.node, 'stamp column renamed to %r' % _stamp(ctx))
+
+
+@obligation('C17.6', 'TABLES (guards by truth table) + argument roles', '_bitemporal:bi_merge preliminaries, bi_read output shaping',
+            'every version enters the store with its own stamp (Bi(version, stamp), data first), nothing to merge returns None / the single version, and a read of a stored Series comes back as that Series',
+            axioms=())
+def c17_6(ctx):
+    r = ctx.repo
+    m = r.fn('_bitemporal:bi_merge')
+    for c in calls_in(m.node, 'Bi'):
+        ctx.count(1, m.where(c))
+        if len(c.args) != 2 or U(c.args[0]) != 'b' or U(c.args[1]) not in ('asof', 'existing_data'):
+            ctx.fail(m, c, 'a version is stamped as %s: the data come first, the stamp second' % U(c))
+    defs = {}
+    for s in ast.walk(m.node):
+        if isinstance(s, ast.Assign) and isinstance(s.targets[0], ast.Name):
+            defs.setdefault(U(s.targets[0]), []).append(N(s.value))
+    ctx.count(1)
+    if NS('[b if is_bi(b) else Bi(b, asof) for b in as_list(new_data)]') not in defs.get('new_bis', []):
+        ctx.fail(m, m.node, 'new versions are not stamped with asof unless already bitemporal: %s' % defs.get('new_bis'))
+    if NS('[b for b in as_list(old_data) if is_bi(b)]') not in defs.get('old_bis', []) or NS('[b if is_bi(b) else Bi(b, existing_data) for b in as_list(old_data)]') not in defs.get('old_bis', []):
+        ctx.fail(m, m.node, 'existing data are not taken as they are (bitemporal) / stamped with existing_data')
+    expect_guards(ctx, m, [
+        ("existing_data in ('ignore', 'overwrite')", 'old_bis = []', 'existing data can be discarded on request'),
+        ('len(bis) == 0', 'return None', 'nothing to merge'),
+        ('len(bis) == 1', 'return bis[0]', 'a single version is the store'),
+        ('index_name is None', "df.index.name = 'index'", 'grouping needs a named index'),
+    ], where=[x for x in ast.walk(m.node) if isinstance(x, ast.If)])
+    ctx.count(1)
+    if not any(isinstance(s, ast.Assign) and N(s.targets[0]) == 'res.index.name' and U(s.value) == 'index_name' for s in m.body):
+        ctx.fail(m, m.node, 'the original index name is not restored on the merged store')
+    b = r.fn('_bitemporal:bi_read')
+    expect_guards(ctx, b, [
+        ('res.shape[1] == 1 and res.columns[0] == _series', 'res = res[_series]', 'a stored Series is read back as a Series'),
+        ('_columns in res.columns', 'combos = list(set(res[_columns].values))', 'frames with mixed columns'),
+        ('index_name is None', "df.index.name = 'index'", 'grouping needs a named index'),
+        ('len(df)', 'if index_name is None:\n    df.index.name = "index"', 'an empty store reads as empty'),
+    ], where=[x for x in ast.walk(b.node) if isinstance(x, ast.If)])
+    ctx.count(1)
+    if not any(isinstance(s, ast.Assign) and N(s.targets[0]) == 'res.index.name' and U(s.value) == 'index_name' for s in b.body):
+        ctx.fail(b, b.node, 'the original index name is not restored on the read')
+    f = r.fn('_bitemporal:Bi')
+    expect_guards(ctx, f, [("asof == 'shift'", 'now = dt()', 'shift: each row is published at the next observation date'),
+                           ('is_bump(asof)', 'now = dt()', 'a bump: published that long after the observation'),
+                           ('isinstance(asof, list)', 'now = dt()', 'a list of bumps'),
+                           ('is_series(%s)' % f.params[0], 'df = pd.DataFrame(%s, columns=[_series])' % f.params[0], 'a Series is stored under the reserved column')],
+                  where=[x for x in ast.walk(f.node) if isinstance(x, ast.If)])
+    ctx.count(1)
+    sh = [s for s in ast.walk(f.node) if isinstance(s, ast.Assign) and N(s.targets[0]) == 'df[_updated]']
+    vals = [N(s.value) for s in sh]
+    want = [NS('list(df.index[1:]) + [now]'), NS('dt_bump(df, asof).index'), NS('dt_bump(df, *asof).index'), 'dt(asof)']
+    if vals != want:
+        ctx.fail(f, f.node, 'stamps are assigned as %s' % vals)
+    caps = [N(s.targets[0]) for s in ast.walk(f.node) if isinstance(s, ast.Assign) and '.loc' in U(s.targets[0])]
+    if any(c != NS('df.loc[df[_updated] > now, _updated]') for c in caps):
+        ctx.fail(f, f.node, 'the cap on future stamps is `%s`' % caps)
